@@ -38,6 +38,9 @@ nan := inf - inf
 gen := <{|i| yield i if i < 3; recur(i + 1)}>
 objB0 := {a: 1, B: m{false}}
 objB1 := {B: m{true}}
+objBint := {B: m{1}}
+objBnil := {a: 1, B: m{nil}}
+objBstr := {B: m{"x"}}
 `
 
 var poolSpecs = []poolSpec{
@@ -61,6 +64,7 @@ var poolSpecs = []poolSpec{
 	{"{}", "obj", "zero"}, {"{a: 1}", "obj", ""}, {"{_p: 1}", "obj", ""}, {"{a: {b: 2}}", "obj", ""}, {"{a: 1, b: 2}", "obj", ""},
 	{"{a: 1}.bear", "obj", "desc"}, {"{a: 1}.bear({b: 2})", "obj", "desc"}, {"{a: [1, 2]}", "obj", ""}, {"{a: 2}", "obj", ""},
 	{"{_missing: m{|name| name}}", "obj", "user"}, {"objB0", "obj", "user userB"}, {"objB1", "obj", "user userB"},
+	{"objBint", "obj", "user userB"}, {"objBnil", "obj", "user userB"}, {"objBstr", "obj", "user userB"},
 	// maps
 	{"%{}", "map", "zero"}, {"%{1: 2}", "map", ""}, {`%{"a": 1}`, "map", ""}, {"%{[1]: 2}", "map", ""}, {"%{'a: 1}", "map", ""},
 	{"%{1: 2, 3: 4}", "map", ""}, {"%{3: 4, 1: 2}", "map", ""}, {"%{{a: 1}: 1}", "map", ""}, {"%{nil: nil}", "map", ""},
